@@ -15,5 +15,5 @@ CONSTANTS
     REKEEP = FALSE
     MAXSAVES = 0
     ImportCleans = TRUE
-    UnmarshalMode = "merge"
+    UnmarshalMode = "replace"
     LoadSkipsBad = TRUE
